@@ -51,6 +51,7 @@ struct SimThread {
   int op = -1;
   uint32_t hook = 0;
   uint32_t weighted = 0;
+  uint32_t total_hooks = 0;
   uint32_t consecutive = 0;
   uint32_t lone_spins = 0;
   int hooks_off = 0;
@@ -109,7 +110,7 @@ struct Global {
   std::string engine;
   bool tracing = false;
   std::vector<std::string> trace;
-  std::vector<uint32_t> last_len;
+  std::vector<uint32_t> last_len, last_hooks;
   Stats stats;
   uint64_t run_probes[16] = {};
   pthread_key_t key;
@@ -296,6 +297,7 @@ void log_event(SimThread* st, int kind, const void* addr) {
 void do_point(SimThread* st, int kind, const void* addr) {
   g.step++;
   st->hook++;
+  st->total_hooks++;
   g.stats.kind_count[kind < K_KIND_MAX ? kind : 0]++;
   log_event(st, kind, addr);
   if (g.step > g.budget)
@@ -411,6 +413,7 @@ void enable_trace(bool on) { g.tracing = on; }
 const std::vector<std::string>& trace() { return g.trace; }
 void set_die_context(uint64_t seed, const char* engine) { g.seed = seed; g.engine = engine; }
 std::vector<uint32_t> thread_lengths() { return g.last_len; }
+std::vector<uint32_t> thread_hook_counts() { return g.last_hooks; }
 
 void die(const std::string& vclass, const std::string& detail) {
   static std::atomic<int> once{0};
@@ -472,7 +475,7 @@ void name_region(const void* p, size_t n, uint64_t id) {
 void run_begin(const Case& c, const std::vector<uint32_t>* measured_len) {
   g.threads.resize(1);
   auto* t0 = g.threads[0].get();
-  t0->state = SimThread::RUNNABLE; t0->op = -1; t0->hook = 0; t0->weighted = 0; t0->consecutive = 0;
+  t0->state = SimThread::RUNNABLE; t0->op = -1; t0->hook = 0; t0->weighted = 0; t0->total_hooks = 0; t0->consecutive = 0;
   t0->lone_spins = 0; t0->hooks_off = 0; t0->armed = false; t0->fired = false; t0->buggify_calls = 0;
   t0->buggify_at.clear();
   g.current = 0; g.active = false; g.step = 0; g.switches = 0;
@@ -577,6 +580,8 @@ void run_end(Result& r) {
   g.active = false;
   g.last_len.assign(g.threads.size(), 0);
   for (auto& t : g.threads) g.last_len[static_cast<size_t>(t->id)] = t->weighted;
+  g.last_hooks.assign(g.threads.size(), 0);
+  for (auto& t : g.threads) g.last_hooks[static_cast<size_t>(t->id)] = t->total_hooks;
   for (auto it = g.ledger.begin(); it != g.ledger.end();) {
     if (it->second.state != 0) {
       unpoison(it->second);
@@ -650,6 +655,10 @@ void set_alloc_callbacks(std::function<void(Block&)> on_alloc, std::function<voi
   g.on_free = std::move(on_free);
 }
 void ledger_set_tracking(bool on) { g.track = on; }
+void ledger_forget_all() {
+  for (auto& kv : g.ledger) unpoison(kv.second);
+  g.ledger.clear();
+}
 
 // fault helper shared by the allocation seams; true = fail this allocation
 static bool alloc_should_fail(SimThread* st) {
